@@ -11,24 +11,26 @@ Print Assumptions params_ok_now.
    {0,512}^2 and IA on/off, the modelled handshake run against a protocol-following peer
    succeeds iff a connection type is allowed by both sides, with a mode both allow, the preferred
    one when both are possible, correctly aligned ciphers and at most 512 unread bytes; at most one
-   retry. Excluded: the cell where the model (and the code) raise internal_error. Reading: the
-   stream policy constrains MSE-negotiated streams only. *)
+   retry. Reading: the stream policy constrains MSE-negotiated streams only (the code's reading;
+   the strict reading is the known finding below). Excluded: the (prefer, require) dial to a
+   plain-only remote, which since /repo 3196365 fails without a plaintext retry. *)
 Theorem negotiation_table :
   forall incoming p o pa pb ia,
     In p all_policies -> In o all_offers -> In pa [0; 512] -> In pb [0; 512] ->
-    crash_cell incoming p o = false ->
+    noretry_cell incoming p o = false ->
     spec_ok false incoming p o (negotiate incoming p o pa pb ia 0) = true.
 Proof. exact Proofs.negotiation_table. Qed.
 Print Assumptions negotiation_table.
 
-Theorem retry_internal_error_refuted :
-  exists p o, In p all_policies /\ In o all_offers /\ compatible false p o = true /\
-              negotiate false p o 0 0 false 0 = NCrash.
-Proof. exact Proofs.retry_internal_error_refuted. Qed.
-Print Assumptions retry_internal_error_refuted.
+Theorem noretry_cell_fails_cleanly :
+  forall pa pb, In pa [0; 512] -> In pb [0; 512] ->
+    negotiate false (mkPolicy Prefer Require false Allow) OPlain pa pb false 0 = NFail 1.
+Proof. exact Proofs.noretry_cell_fails_cleanly. Qed.
+Print Assumptions noretry_cell_fails_cleanly.
 
+(* known finding plain-handshake-despite-stream-require *)
 Theorem strict_stream_policy_refuted :
-  exists incoming p o, In p all_policies /\ In o all_offers /\ crash_cell incoming p o = false /\
+  exists incoming p o, In p all_policies /\ In o all_offers /\
     spec_ok true incoming p o (negotiate incoming p o 0 0 false 0) = false /\
     negotiate incoming p o 0 0 false 0 = NSucc false 1 1 true 5 /\ allow_plain_stream p = false.
 Proof. exact Proofs.strict_stream_policy_refuted. Qed.
@@ -79,9 +81,8 @@ Print Assumptions retry_policy_spec.
 
 (* PARTIAL: for the 15 policies and the two failure points (before / right after the peer's key or
    handshake part 1 was recognised) an outgoing failure is retried iff the retry flag was set and
-   nothing had been recognised, with the flipped handshake type, and the retry is never retried;
-   the one internal_error cell is (prefer, require, before). Not yet: all failure points by
-   induction over the run. *)
+   nothing had been recognised, with the flipped handshake type, the retry is never retried, and the
+   retry policy constructor never throws. *)
 Theorem retry_rule_partial : forall p fp, In p all_policies -> In fp [0; 1] -> retry_cell p fp = true.
 Proof. exact Proofs.retry_rule_partial. Qed.
 Print Assumptions retry_rule_partial.
